@@ -26,6 +26,7 @@ type Opts struct {
 	NoFalseBoolKey bool // class bool-false-wantzero: no false bool map keys, no bools inside struct keys
 	NoImpl         bool // no implementers at all
 	ForceBigRep    bool // the first cheap repeated field of each value gets 1001..BigRepN elements
+	Huge           bool // thorough tier: payload lengths around 2^21 are drawn too
 
 	Excluded func(class string)
 
@@ -201,7 +202,12 @@ func (g *tgen) leafType(allowBytes bool) TypeDesc {
 }
 
 func (g *tgen) arrayLen() int {
-	switch pick(g.t, "alen", 1, 6, 2, 1) {
+	switch pick(g.t, "alen", 10, 60, 20, 9, 1) {
+	case 4: // byte arrays whose length prefix sits on a varint width boundary
+		if g.o.Small && Uniform(g.t, "abig", 8) != 0 {
+			return oneOf(g.t, "n", []int{127, 128, 129})
+		}
+		return oneOf(g.t, "n", []int{127, 128, 129, 16383, 16384, 16385})
 	case 0:
 		return 0
 	case 1:
@@ -644,9 +650,31 @@ func genInt(t *rapid.T, bits int, signed bool) uint64 {
 	return uint64(v)
 }
 
+// boundaryLen draws a payload length on or next to a width boundary of the
+// length-prefix varint: 2^7 and 2^14 (and 2^21 with Opts.Huge). The values
+// B-4..B-2 make a message that wraps the payload (tag + prefix + payload) land
+// on the boundary itself. With Opts.Small the 2^14 group is rare (those values
+// are expensive for checks that enumerate every cut point).
+func boundaryLen(t *rapid.T, o *Opts) int {
+	around := func(b int) int { return b + []int{-4, -3, -2, -1, -1, 0, 0, 0, 1, 1}[Uniform(t, "bndoff", 10)] }
+	if o.Huge && Uniform(t, "bndhuge", 40) == 0 {
+		return around(1 << 21)
+	}
+	rare := 2
+	if o.Small {
+		rare = 16
+	}
+	if Uniform(t, "bnd14", rare) == 0 {
+		return around(1 << 14)
+	}
+	return around(1 << 7)
+}
+
 func genString(t *rapid.T, o *Opts, label string) []byte {
 	var n int
-	switch pick(t, label+"len", 15, 50, 15, 10, 10) {
+	switch pick(t, label+"len", 15, 50, 15, 10, 10, 2) {
+	case 5:
+		n = boundaryLen(t, o)
 	case 0:
 		n = 0
 	case 1:
